@@ -1,0 +1,42 @@
+//go:build verif
+
+package storer
+
+// Contracts for the gvc verifier (/verif). Comment-only; never compiled into
+// a normal build.
+//
+// Interface contract of storer.ReferenceStorer against an abstract finite map
+// #refs : name id -> *Reference (0 = absent). It is what every implementation
+// is assumed to provide (trusted: the implementations are not verified
+// against it here) and what the transactional layer is verified against.
+
+//gvc:ghost ReferenceStorer.refs map
+
+//gvc:func ReferenceStorer.Reference
+//gvc:  trusted
+//gvc:  params s n
+//gvc:  results ref err
+//gvc:  ensures found: err == nil ==> ref != nil && ref == s.#refs[strid(n)] && strid(ref.n) == strid(n)
+//gvc:  ensures absent: err == plumbing.ErrReferenceNotFound ==> ref == nil && s.#refs[strid(n)] == 0
+//gvc:  ensures present: s.#refs[strid(n)] == 0 ==> err != nil
+//gvc:  ensures nilref: err != nil ==> ref == nil
+//gvc:end
+
+//gvc:func ReferenceStorer.SetReference
+//gvc:  trusted
+//gvc:  params s ref
+//gvc:  results err
+//gvc:  requires refnn: ref != nil
+//gvc:  modifies s.#refs
+//gvc:  ensures set: err == nil ==> s.#refs == store(old(s.#refs), strid(ref.n), ref)
+//gvc:  ensures unchanged: err != nil ==> s.#refs == old(s.#refs)
+//gvc:end
+
+//gvc:func ReferenceStorer.RemoveReference
+//gvc:  trusted
+//gvc:  params s n
+//gvc:  results err
+//gvc:  modifies s.#refs
+//gvc:  ensures removed: err == nil ==> s.#refs == store(old(s.#refs), strid(n), 0)
+//gvc:  ensures unchanged: err != nil ==> s.#refs == old(s.#refs)
+//gvc:end
